@@ -310,6 +310,8 @@ class Port(Base):
             raise ValueError(msg)
 
         # validation
+        if invalid := [i for i in ports if i > 65535]:
+            raise ValueError(f"invalid ports={invalid}, expected in range 0...65535")
         operator = self._operator
         if operator in ["lt", "gt"] and len(ports) != 1:
             raise ValueError(f"invalid {operator=} with {ports=}")
